@@ -4,6 +4,17 @@ use crate::vocoder::Vocoder;
 
 type Parameter = Vec<Vec<f64>>;
 
+#[cfg(feature = "verif-hooks")]
+thread_local! {
+    static VERIF_PENDING_DURATIONS: std::cell::Cell<Vec<usize>> = const { std::cell::Cell::new(Vec::new()) };
+}
+
+/// (verif-hooks) Remember the per-state frame counts for the next [`SpeechGenerator`] built on this thread.
+#[cfg(feature = "verif-hooks")]
+pub fn verif_record_durations(durations: &[usize]) {
+    VERIF_PENDING_DURATIONS.with(|p| p.set(durations.to_vec()));
+}
+
 /// A structure that contains all parameters necessary to generate speech waveform.
 pub struct SpeechGenerator {
     fperiod: usize,
@@ -13,6 +24,9 @@ pub struct SpeechGenerator {
     lpf: Parameter,
 
     next: usize,
+
+    #[cfg(feature = "verif-hooks")]
+    verif_durations: Vec<usize>,
 }
 
 impl SpeechGenerator {
@@ -46,7 +60,21 @@ impl SpeechGenerator {
             lf0,
             lpf,
             next: 0,
+
+            #[cfg(feature = "verif-hooks")]
+            verif_durations: VERIF_PENDING_DURATIONS.with(|p| p.take()),
         }
+    }
+
+    /// (verif-hooks) The spectrum, log-F0 and low-pass trajectories exactly as they will be rendered.
+    #[cfg(feature = "verif-hooks")]
+    pub fn verif_trajectories(&self) -> (&[Vec<f64>], &[Vec<f64>], &[Vec<f64>]) {
+        (&self.spectrum, &self.lf0, &self.lpf)
+    }
+    /// (verif-hooks) The per-state frame counts this generator was built from (empty if not recorded).
+    #[cfg(feature = "verif-hooks")]
+    pub fn verif_durations(&self) -> &[usize] {
+        &self.verif_durations
     }
 
     /// Get `fperiod`, which equals to the number of samples synthesized in a single call of [`SpeechGenerator::generate_step`].
